@@ -635,6 +635,8 @@ inductive XEv where
   | hold
   | lateStop    -- an evaluation under an (already expired) context that finishes — its `Execute` returns — just before
                 -- the watcher runs `stop()`: the call returns the context's error, nothing refreshes the root frame afterwards
+  | stopOnly    -- a `…WithContext` call whose evaluation never reaches `Execute` while the watcher runs `stop()` (does not
+                -- happen with the extracted facts' source: `Eval` is always called; a seeded change makes it happen)
   deriving DecidableEq, Repr, Inhabited
 
 /-- the cancelled `Execute` that was held returns: its deferred refresh -/
@@ -644,6 +646,9 @@ def stepX (F : RunIdFacts) (s : HSt × Bool) : XEv → HSt × Bool
   | .ev e => (settle F (stepH F s.1 e) s.2, false)
   | .hold => ((settle F s.1 s.2).stoppedNotLeft F, true)
   | .lateStop => ((((settle F s.1 s.2).enter F true).leave F).stop F true, false)
+  | .stopOnly =>
+    let h := settle F s.1 s.2
+    (({ h with idone := if F.ctxFreshDone then false else h.idone } : HSt).stop F false, false)
 
 def runX (F : RunIdFacts) (evs : List XEv) : HSt :=
   let r := evs.foldl (stepX F) (HSt.init, false)
@@ -655,6 +660,7 @@ def XEv.plain : List XEv → List Ev
   | .ev e :: rest => e :: XEv.plain rest
   | .hold :: rest => XEv.plain rest
   | .lateStop :: rest => XEv.plain rest
+  | .stopOnly :: rest => XEv.plain rest
 
 /-- the specification: a definition always runs (what Go, and the property, demand) -/
 def stepSpec (h : HSt) : Ev → HSt
